@@ -18,7 +18,7 @@ import re
 
 from sa.engine.cfg import CFG
 from sa.engine.guards import CallIndex, contains_call, interproc_guarded, lit_text, nnf, unguarded_path
-from sa.engine.index import AnalysisError, last_attr, norm, own_nodes, parent, qualname
+from sa.engine.index import canonical_by_callee, rename_roles, unpacked_from, AnalysisError, last_attr, norm, own_nodes, parent, qualname
 
 TR = "pynguin.instrumentation.transformer"
 AU = "pynguin.analyses.ast_utils"
@@ -246,6 +246,10 @@ def check(ctx) -> None:
 
     # ------------------------------------------------------------------ C08.sources
     fp = repo.func(TR, "ModuleAstInfo.from_path")
+    # locals named after the constructor keywords they feed and after what read_module_ast returns
+    fp = canonical_by_callee(fp, None, lambda c: norm(c.func) == "cls")
+    fp = rename_roles(fp, {"module_ast": lambda f: unpacked_from(f, lambda v: isinstance(v, ast.Call) and last_attr(v) == "read_module_ast", 0),
+                           "source_code": lambda f: unpacked_from(f, lambda v: isinstance(v, ast.Call) and last_attr(v) == "read_module_ast", 1)})
     ctx.analysed(fp)
     nc = [n for n in own_nodes(fp) if isinstance(n, ast.Assign) and any(isinstance(t, ast.Name) and t.id == "no_cover_lines" for t in n.targets)]
     if len(nc) != 1:
